@@ -571,6 +571,9 @@ func init() {
 					for _, c := range [][4]int{{70, 1, 0, 0}, {70, 2, 69, 0}, {66, 64, 66, 0}, {130, 1, 0, 0}, {4, 1, 0, 1}, {4, 2, 5, 1}, {70, 1, 0, 1}} {
 						jobs = append(jobs, J(sessPkg, "H_C10_long", role, c[0], c[1], c[2], c[3]))
 					}
+					if role == 0 {
+						jobs = append(jobs, J(sessPkg, "H_C10_long", 0, 3, 1, 0, 0, 1), J(sessPkg, "H_C10_long", 0, 3, 2, 6, 1, 1))
+					}
 					for cc := 0; cc <= 1; cc++ {
 						for nc := 0; nc <= 1; nc++ {
 							jobs = append(jobs, J(sessPkg, "H_C10_gap", role, cc, nc))
